@@ -108,8 +108,9 @@ def d2_control_not_returned(ctx, rm: REModel):
     run = rm.run
     h = [x for x in rm.inner_try.handlers if x.type is not None and "CancelledError" in A.norm(x.type)]
     ctx.require(h, "anchor vanished: except CancelledError in the message loop")
-    br = [s for s in h[0].body if isinstance(s, ast.If) and A.norm(s.test) == "self._state == 'suspending'"]
-    ok = bool(br) and len(br[0].body) == 1 and isinstance(br[0].body[0], ast.Continue)
+    br = [s for s in A.walk_stmts(h[0].body) if isinstance(s, ast.If) and A.norm(s.test) == "self._state == 'suspending'"]
+    # the branch does nothing but go on with the loop: `continue`, or nothing at all when falling off the handler ends the iteration
+    ok = bool(br) and all(isinstance(x, ast.Continue) for x in A.body(br[0].body)) and (len(A.body(br[0].body)) == 1 or q.in_tail_position(rm.loop, br[0]))
     ctx.ob("C11.D2-caller-not-released", cname(run, None, "a cancel caused by a suspension only bounces to the top of the loop"), ok,
            "" if ok else "the suspension path does more than continue (e.g. clears the run permit and enters the pause block)", where=where(run, h[0]))
 
